@@ -15,7 +15,8 @@ from .tlc import read_export, run_tlc
 STREAMS = ["f!(a, [b, c] d)x\n", "f!( a,b )\n", "g!()\n", "h!(a))\n", "k!(a]\n", "m!((a,b), {c: d}\n", "p!(a, )#c\nq\n", "r!(,a)\n", "s!(a\n\nb)\n"]
 # line-structured sources for the with-macro capture (INDENT / DEDENT / NEWLINE / NL / COMMENT tokens from the layout)
 WITH_STREAMS = ["w c:\n    a b\n    d\ne\n", "w c: a b\nd\n", "w c:\n  a\n    b\n  c\n\n  # k\n  d\ne f\n", "if a:\n  w c:\n    x\n  y\nz\n",
-                "w c:\n    a", "w c:\n", "w c: a", "w c:\n    a\n# t\n\nb\n", "w c:\n  a\nw d:\n  b\nc\n"]
+                "w c:\n    a", "w c:\n", "w c: a", "w c:\n    a\n# t\n\nb\n", "w c:\n  a\nw d:\n  b\nc\n",
+                "w c:\n    # k\n\n    a\nb\n", "w c:\n  a\n  # in\n# out\n\n  # in2\nb\n", "w c:\n# only\nz\n", "w c:\n    # only\n"]
 _LEX = re.compile(r"(?P<NAME>\w+)|(?P<OPX>!\()|(?P<OP>[()\[\]{},:])|(?P<WS>[ \t]+)|(?P<COMMENT>#[^\n]*)|(?P<NEWLINE>\n)")
 
 
@@ -120,9 +121,9 @@ def conformance(run: Run, maxcalls: int) -> list[dict]:
                             return (src_lines[l - 1] + ("\n" if l < len(src_lines) else "")) if l <= len(src_lines) else ""
 
                         if w["oneline"]:      # not the block form: every line from the column of the token that put it in
-                            expected = "".join(text_of(l)[c:] for l, c in w["ls"])
+                            expected = "".join(text_of(e[0])[e[1]:] for e in w["ls"])
                         else:
-                            expected = textwrap.dedent("".join(text_of(l) for l, _c in w["ls"]))
+                            expected = textwrap.dedent("".join(text_of(e[0]) for e in w["ls"]))
                         if o.get("text") != expected:
                             problems.append({"kind": "law_violated_by_real_class", "stream": src, "calls": [[x["op"], x["arg"]] for x in want[: j + 1]],
                                              "observed": {"captured": o.get("text")}, "model": {"lines": w["ls"], "expected": expected}})
